@@ -172,7 +172,7 @@ example : WFV (.list [.int "1" {}, .obj [("k", {}, .str "a\"b" {})] {}, .bool tr
     · intro x hx
       simp only [List.mem_singleton] at hx
       subst hx; decide
-    · refine Cms.cons ⟨?_, by decide, Or.inl rfl⟩ ?_ (fun h => by cases h) Cms.nil
+    · refine Cms.cons ⟨?_, Or.inl (by decide), Or.inl rfl⟩ ?_ (fun h => by cases h) Cms.nil
       · intro x hx
         simp only [List.mem_cons, List.not_mem_nil, or_false] at hx
         rcases hx with rfl | rfl <;> decide
